@@ -269,8 +269,7 @@ def run(ctx):
                     replay={"cfg": r["cfg"], "script": r["script"], "maxwait": r.get("maxwait"), "monitor": [m for m in r["mon"]],
                             "observed": r["groups"]}, key=key)
     ctx.cov["monitor_messages"] = nmon
-    # experimental monitors of extension X4: what a restart of Run does to liveness (reported in reports/report_ext_X4.md and
-    # findings/C10_restart_*.json; NOT registered as problems until a decision about them is taken)
+    # experimental monitors (reported as coverage only; none at present: the two of extension X4 are registered monitors now)
     exps = {}
     for r in rows:
         for m in r.get("exp") or []:
@@ -326,7 +325,8 @@ def run(ctx):
     ctx.assumptions = [
         "the simulated node answers over go-ethereum's real rpc server/client (websocket); TLS, HTTP transports and provider quirks are not simulated",
         "the log subscription's address/topic filter is applied by the node (the harness checks that the real subscription request names the core contract and the LogMessagePublished topic and applies it like a node would)",
-        "a failing block-time lookup on the log path terminates Run (the supervisor restarts it); the log is then never recorded; restarts are not part of the model (explicit Died outcome, not exercised)",
+        "restarts of Run (errC -> the supervisor re-enters Run on the same Watcher value) are part of the model (model/EvmGuardianSet.v) and of the histories; goroutines of a returned Run that are still finishing when Run is re-entered are not interleaved with the new ones (the supervisor backs off >= 250 ms); a failing block-time lookup on the log path ends Run before the log is recorded: open known finding liveness:log-lost-on-blocktime-error",
+        "the state `w.pending non-empty and block poller off` is observed as: not one eth_getBlockByNumber request for 5 s at a 1 ms poll interval while messages are pending and no insertion is in flight (monitor liveness:pending-with-poller-off)",
         "the head subscription delivers what the poller publishes in order (go-ethereum event.Feed); the watcher's own 'processing new header' / 'processed new header' log lines are the trace of head processing (a rewording shows up as rendezvous timeouts)",
         "receipts whose JSON does not unmarshal (non-nil receipt together with an error) are not generated",
         "logs with an empty topic list / a receipt without block number inside a re-observed receipt make the real code panic (Topics[0], BlockNumber.Uint64()); modelled as explicit Panic outcomes, not exercised",
